@@ -252,8 +252,14 @@ def _inject_body(asm, ex, relfile, fnitem, loops, closures, hints, fninfo, rewri
         else:
             edits.append((bs, 0, sp + "{ ", {"kind": "closurespec", "fn": fninfo, "closure": k, "tags": tags}))
             edits.append((be, 0, " }", {"kind": "closurebrace", "fn": fninfo, "closure": k}))
-    if len(fnitem["closures"]) != len(closures) and closures:
-        raise Infra("closure count of %s in %s changed (%d in source, %d annotated)" % (fnitem["key"], relfile, len(fnitem["closures"]), len(closures)))
+    # closures that a REWRITE directive replaces as a whole (text of the closure inside the rewritten expression) are gone
+    # from the verified text and need no annotation
+    n_live = sum(1 for cl in fnitem["closures"]
+                 if not any(src[cl["or1"][0]:cl["body"][1]].decode() in frm for (frm, _to) in rewrites))
+    if n_live != len(closures):
+        # a closure without a contract is opaque to the verifier: whatever depends on its result would be "refuted" for lack
+        # of information, not because the code is wrong -- undecided (exit 2), never an alarm; Kani still decides
+        raise Infra("closure count of %s in %s changed (%d in source, %d annotated): an unannotated closure is opaque to the verifier" % (fnitem["key"], relfile, n_live, len(closures)))
     body_text = src[b0:b1].decode()
     for (anchor, proof) in hints:
         cnt = body_text.count(anchor)
